@@ -10,6 +10,7 @@ from tree_sitter import Node
 from nix_manipulator.exceptions import NixSyntaxError
 from nix_manipulator.expressions.binding import Binding, _split_attrpath
 from nix_manipulator.expressions.binding_parser import parse_binding_sequence
+from nix_manipulator.expressions.comment import Comment, MultilineComment
 from nix_manipulator.expressions.expression import NixExpression, TypedExpression
 from nix_manipulator.expressions.identifier import Identifier
 from nix_manipulator.expressions.inherit import Inherit
@@ -208,6 +209,25 @@ def _render_bindings(
     return rendered
 
 
+def _ends_with_line_comment(item: Binding | Inherit | _AttrpathEntry) -> bool:
+    """Tell whether the rendered item ends in a `#` comment.
+
+    On a single line such a comment would swallow everything that follows it,
+    including the closing brace of the set.
+    """
+    binding = item.binding if isinstance(item, _AttrpathEntry) else item
+    trailing: list[Any] = list(getattr(binding, "after", None) or [])
+    if isinstance(item, _AttrpathEntry) and item.after is not None:
+        trailing = list(item.after)
+    value = getattr(binding, "value", None)
+    if isinstance(value, NixExpression):
+        trailing += value.after
+    return any(
+        isinstance(entry, Comment) and not isinstance(entry, MultilineComment)
+        for entry in trailing
+    )
+
+
 @dataclass(slots=True, repr=False)
 class AttributeSet(TypedExpression):
     """Nix attribute set with trivia-aware formatting."""
@@ -352,9 +372,11 @@ class AttributeSet(TypedExpression):
                 return apply_trailing_trivia(set_str, self.after, indent=indent)
             return self.add_trivia(f"{prefix}{{ }}", indent=indent, inline=inline)
 
-        if self.multiline:
+        render_values = self.attrpath_order if self.attrpath_order else self.values
+        if self.multiline or any(
+            _ends_with_line_comment(item) for item in render_values
+        ):
             before_str = format_trivia(self.before, indent=indent)
-            render_values = self.attrpath_order if self.attrpath_order else self.values
             bindings_str = "\n".join(
                 _render_bindings(render_values, indent=indented, inline=False)
             )
